@@ -50,6 +50,10 @@ class _Params:
 P = _Params()
 
 
+class HarnessHang(Exception):
+    """Raised by the CPU watchdog when a single concrete execution of a harness does not terminate."""
+
+
 class Reached(AssertionError):
     """Raised at a reach point when the run is the reachability twin for that tag."""
 
